@@ -119,6 +119,17 @@ func (t *PageTree) Count() (int, error) {
 		return 0, fmt.Errorf("invalid /Count value: %d", count)
 	}
 
+	// /Count is only what the file claims, and callers index pages and size allocations by the
+	// result: never report more pages than there are page leaves.
+	if t.pages == nil {
+		if err := t.loadPages(); err != nil {
+			return 0, err
+		}
+	}
+	if int64(count) > int64(len(t.pages)) {
+		return len(t.pages), nil
+	}
+
 	return int(count), nil
 }
 
